@@ -308,17 +308,30 @@ def r4_branch_cache(repo: Repo, rep):
         changed = [pol for g, pol, k in p.guards if dump(g).replace(" ", "") in (f"{it}!={fs}.current_iteration_num", f"{fs}.current_iteration_num!={it}")]
         changed += [not pol for g, pol, k in p.guards if dump(g).replace(" ", "") in (f"{it}=={fs}.current_iteration_num", f"{fs}.current_iteration_num=={it}")]
         calls = [dump(e.value.func) for e in p.events if e.kind == "call" and isinstance(e.value, ast.Call)]
-        if changed and changed[0]:
+        S = changed[0] if changed else None  # did the function set's own iteration flag change on this path?
+        own = [(g, pol) for g, pol, k in p.guards if k == "if" and any(isinstance(x, ast.Attribute) and attr_chain(x) and attr_chain(x).startswith("self.") for x in ast.walk(g))]
+        reuse = "self.branch" not in calls
+        sampled = f"{fs}.sample_params" in calls
+        if S is True:
             upd = p.env.get(f"{fs}.current_iteration_num")
-            ok = upd is not None and dump(upd) == it and calls[:1] == [f"{fs}.sample_params"] and "self.branch" in calls
+            ok = upd is not None and dump(upd) == it and calls[:1] == [f"{fs}.sample_params"] and not reuse
             rep.check(R, ok, fb.site(), fb.fq, "new iteration: remember it, sample new functions, discretise, evaluate the branch", f"calls {calls}, iteration := {dump(upd)}", str(calls))
-        elif changed:
-            rep.check(R, not calls, fb.site(), fb.fq, "same iteration: the cached branch output is reused", str(calls), str(calls))
-        elif not calls:
-            rep.violation(R, fb.site(p.ret_node) if p.ret_node is not None else fb.site(), fb.fq, "the cached branch output is reused only when the iteration number equals the remembered one",
-                          f"returns without evaluating the branch under {[(dump(g)[:50], pol) for g, pol, k in p.guards if k == 'if']}", "reuse without the iteration test")
+            continue
+        if sampled:
+            rep.violation(R, fb.site(), fb.fq, "new functions are drawn exactly when the function set's remembered iteration differs", f"sample_params under {[(dump(g)[:50], pol) for g, pol, k in p.guards if k == 'if']}", "resampled without the function set's iteration test")
+            continue
+        if reuse:
+            if S is not False:
+                rep.violation(R, fb.site(p.ret_node) if p.ret_node is not None else fb.site(), fb.fq, "the cached branch output is reused only when the function set's iteration number equals the remembered one",
+                              f"returns without evaluating the branch under {[(dump(g)[:50], pol) for g, pol, k in p.guards if k == 'if']}", "reuse without the iteration test")
+                continue
+            # ownership: the output that is reused lives on this model's branch net; that it belongs to the function set's current sample must be
+            # recorded on the model too, or a second model using the same function set in that iteration reuses an output it never computed
+            rep.check(R, bool(own), fb.site(), fb.fq, "reuse of the cached branch output is also guarded by state of the model that holds it",
+                      f"only `{fs}.current_iteration_num` is consulted (shared by every model that uses the function set); the output lives on `self.branch`",
+                      "cache flag and cached value on different objects")
         else:
-            rep.undecided(R, fb.site(), fb.fq, "guard `iteration_num != function_set.current_iteration_num`", "not found")
+            rep.ok(R, fb.site(), fb.fq, "the branch is evaluated on the function set's current sample", str(calls))
 
 
 def r4b_fix_always(repo: Repo, rep):
